@@ -142,20 +142,40 @@ fn run_c05(case: &Value, id: &str, rng: &mut Rng) -> Value {
         let name = ["TE", "te", "Te"][rng.below(3)];
         req_headers.push(Header::from_bytes(name.as_bytes(), t.as_bytes()).unwrap());
     }
-    let mut resp = Response::new(
-        StatusCode(st),
-        vec![],
-        PieceReader {
-            data: body(actual),
-            pos: 0,
-            piece: 0,
-        },
-        declared,
-        None,
-    );
-    if case["thr"].as_str().unwrap() != "default" || rng.below(2) == 0 {
-        resp = resp.with_chunked_threshold(thr);
-    }
+    // the same response built in three orders (concretiser's choice): constructor then threshold; a template whose
+    // threshold is set BEFORE its data is replaced; a template whose data is replaced before the threshold is set
+    let reader = PieceReader {
+        data: body(actual),
+        pos: 0,
+        piece: 0,
+    };
+    let set_thr = case["thr"].as_str().unwrap() != "default" || rng.below(2) == 0;
+    let build = ["new", "thr-then-data", "data-then-thr"][rng.below(3)];
+    let resp = match build {
+        "thr-then-data" => {
+            let mut t = Response::new(StatusCode(st), vec![], std::io::Cursor::new(vec![1u8, 2, 3]), Some(3), None).boxed();
+            if set_thr {
+                t = t.with_chunked_threshold(thr);
+            }
+            t.with_data(reader, declared).boxed()
+        }
+        "data-then-thr" => {
+            let mut t = Response::new(StatusCode(st), vec![], std::io::Cursor::new(vec![1u8, 2, 3]), Some(3), None)
+                .with_data(reader, declared)
+                .boxed();
+            if set_thr {
+                t = t.with_chunked_threshold(thr);
+            }
+            t
+        }
+        _ => {
+            let mut t = Response::new(StatusCode(st), vec![], reader, declared, None).boxed();
+            if set_thr {
+                t = t.with_chunked_threshold(thr);
+            }
+            t
+        }
+    };
     let mut out = Vec::new();
     let r = resp.raw_print(&mut out, ver, &req_headers, head, if upg { Some("proto") } else { None });
     let (_st, hs, he) = split_head(&out);
@@ -190,7 +210,7 @@ fn run_c05(case: &Value, id: &str, rng: &mut Rng) -> Value {
         "broken"
     };
     json!({"prop":"C05","id":id,"case":case,"ok":r.is_ok(),"hascl":hascl,"haste":haste || !tes.is_empty(),
-           "clmatches":clmatches,"bodycoding":bodycoding,"status":st,"te":te.unwrap_or_default(),"wire":wire.len()})
+           "clmatches":clmatches,"bodycoding":bodycoding,"status":st,"te":te.unwrap_or_default(),"wire":wire.len(),"build":build})
 }
 
 fn run_c04(case: &Value, id: &str, _rng: &mut Rng) -> Value {
@@ -406,7 +426,14 @@ fn observe_headers(out: &[u8], list: &[(String, u64)]) -> (Vec<Value>, usize, us
                     nprot += 1;
                 }
             }
-            _ => sent.push(json!({"n":ln,"v":0})),
+            _ => {
+                // an ordinary header under another name (ncase "lookalike"): recognised by its value
+                let cls = ["xa", "xb"].iter().find(|c| (1..=2).any(|k| class_value(c, k) == *v));
+                match cls {
+                    Some(c) => sent.push(json!({"n":*c,"v":(1..=2).find(|k| class_value(c, *k) == *v).unwrap_or(0)})),
+                    None => sent.push(json!({"n":ln,"v":0})),
+                }
+            }
         }
     }
     if hs.iter().filter(|(n, _)| n.eq_ignore_ascii_case("Content-Length")).count() > 1 {
@@ -424,12 +451,22 @@ fn run_c19(case: &Value, id: &str, _rng: &mut Rng) -> Value {
         .collect();
     let mode = case["ncase"].as_str().unwrap();
     let route = case["route"].as_str().unwrap();
+    const LOOKALIKES: [&str; 16] = [
+        "Server-Timing", "Date-Generated", "Upgrade-Insecure-Requests", "Trailer-Info", "Content-Length-Hint", "Content-Type-Options",
+        "Connection-Id", "Transfer-Encoding-X", "Serv", "Dat", "Upgrad", "Content-Typ", "Connectio", "Trail", "Content-Lengt", "Transfer-Encodin",
+    ];
+    let salt = id.bytes().fold(0usize, |a, b| a.wrapping_mul(31).wrapping_add(b as usize));
     let hdrs: Vec<Header> = list
         .iter()
         .enumerate()
         .map(|(i, (n, v))| {
             let m = if mode == "mixed" { ["std", "lower", "upper"][i % 3] } else { mode };
-            Header::from_bytes(class_name(n, m).as_bytes(), class_value(n, *v).as_bytes()).unwrap()
+            let name = if mode == "lookalike" && (n == "xa" || n == "xb") {
+                LOOKALIKES[(salt + 5 * i + if n == "xb" { 3 } else { 0 }) % LOOKALIKES.len()].to_string()
+            } else {
+                class_name(n, m)
+            };
+            Header::from_bytes(name.as_bytes(), class_value(n, *v).as_bytes()).unwrap()
         })
         .collect();
     let data = b"hello".to_vec();
